@@ -39,7 +39,8 @@ def enc_texts(rng):
                 sw = sw.upper()
             arg = rng.choice([b64, b'"' + b64 + b'"', b"'" + b64 + b"'", b64[:7] + b"^" + b64[7:], b64[:-1]])
             pre = rng.choice([b"powershell", b"pwsh", b"powershell.exe", b"p^owershell", b'"powershell"', b"powershell -nop -w hidden", b"PowerShell /nop"])
-            out.append(rng.choice([b"", b"cmd /c ", b"x; ", b"'", b"FOR /F %i IN ('"]) + pre + style + sw + b" " + arg + rng.choice([b"", b"'", b"')", b" & echo"]))
+            sep = rng.choice([b" ", b" ", b"  ", b" ^ ", b"^ ^ ", b" ^\t", b"\t", b"^ ", b" \r\n"])     # white space between the switch and its argument, each byte possibly caret-escaped
+            out.append(rng.choice([b"", b"cmd /c ", b"x; ", b"'", b"FOR /F %i IN ('"]) + pre + style + sw + sep + arg + rng.choice([b"", b"'", b"')", b" & echo"]))
     return out
 
 
@@ -50,6 +51,48 @@ def paren_texts(maxlen):
     for n in range(maxlen + 1):
         for t in itertools.product(alpha, repeat=n):
             yield b"(cmd /c " + b"".join(t)
+
+
+def enc_value_check(ctx, rng):
+    """encoded-command invocations BY CONSTRUCTION: value-less switches, then any prefix of -encodedcommand (- or / style, any letter case), white space (each byte possibly
+    caret-escaped when run through cmd), the base64 of UTF-16LE text, plain or quoted.  The result value must be the invocation with switch + argument replaced by
+    -Command <text>, and the span must run from the powershell token to the end of the encoded argument."""
+    from multidecoder.decoders.shell import find_powershell_strings
+    full = b"encodedcommand"
+    text = "whoami /all"
+    b64 = base64.b64encode(text.encode("utf-16-le"))
+    for _ in range(ctx.budget(300, 3000)):
+        k = rng.randint(1, len(full))
+        sw = full[:k]
+        sw = bytes(c ^ 0x20 if rng.random() < 0.3 else c for c in sw)
+        style = rng.choice([b"-", b"/"])
+        in_cmd = rng.random() < 0.5
+        sep = rng.choice([b" ", b"  ", b"\t", b" \t "] + ([b" ^ ", b"^ ^ ", b" ^\t", b"^ "] if in_cmd else []))
+        arg = rng.choice([b64, b'"' + b64 + b'"', b"'" + b64 + b"'"])
+        exe = rng.choice([b"powershell", b"pwsh", b"powershell.exe", b"PowerShell"])
+        flags = rng.choice([b"", b" -nop", b" -NoP -NonI", b" /nop", b" -nop -sta"])      # value-less switches only (the property's wording)
+        inv = exe + flags + b" " + style + sw + sep + arg
+        data = (b"cmd /c " if in_cmd else rng.choice([b"", b"x; "])) + inv
+        try:
+            hits = find_powershell_strings(data)
+        except Exception as ex:  # noqa: BLE001
+            ctx.violation("find_powershell_strings", [data], f"raised {type(ex).__name__}")
+            continue
+        ctx.evals += 1
+        want_tail = b"-Command " + text.encode()
+        def deep(hs):
+            for h in hs:
+                yield h
+                yield from deep(h.children)
+        found = [h for h in deep(hits) if h.obfuscation == "powershell.base64" and bytes(h.value).endswith(want_tail)]
+        if b"^" in data:
+            ok = found          # caret-escaped invocation: reported as a de-escaped cmd result carrying the decoded PowerShell result (span of that child: known finding F19)
+        else:
+            ok = [h for h in found if h in hits and h.end == len(data) and data[h.start:h.start + 2].lower() in (b"po", b"pw")]
+        ctx.count("enc_by_construction:" + ("ok" if ok else "missing"))
+        if not ok:
+            ctx.violation("find_powershell_strings", [data], f"encoded-command invocation {inv[:80]!r}: no result whose value ends in {want_tail!r} covering the invocation up to the end of its argument; got {[(h.type, bytes(h.value)[:50], h.obfuscation, h.start, h.end) for h in hits][:3]}")
+            break
 
 
 def cmd_oracle(dn, data, out):
@@ -97,6 +140,7 @@ def run(ctx):
     extra += list(paren_texts(ctx.budget(4, 6)))
     extra += [b"(cmd /c dir) & echo (", b"IF EXIST a (cmd /c ty^pe a) ELSE (echo x & echo (gone", b"((cmd /c a) b) ((", b"cmd /c a) (", b"cmd a) b) c", b"(cmd /c (echo a) & b) & c)", b"cmd /c x\x00tail)", b'"cmd" x', b"cmd'\t/c\r\nx  ", b"c^m^d /c ^", b"cmd ^)x", b"aaaaaaaaaaaaaa;p^owershell x",
               b"powershell/e^\r\nAAAA", b"^powershell -enc 0x41,0x42,V", b'x = "powershell -nop Get-Item and no closing quote', b"('powershell a') b"]
+    enc_value_check(ctx, ctx.rng)
     run_decoder_probe(ctx, DECODERS, extra_inputs=extra, oracle=cmd_oracle, n_regex=60, n_corpus=100, kinds=("shell", "splice", "stack"))
     for d in extra:
         ctx.evals += 1
